@@ -561,7 +561,7 @@ def run(ctx):
     from . import rtx
     thorough = ctx.tier == "thorough"
     rel = lambda p: p["kind"] == "crash" or "device-" in p["msg"] or "CRASH" in p["msg"]
-    rtx.pipeline_part(ctx, ["switchfail", "api", "drop2", "setfail", "switchfail", "api", "setfail"], 30 if thorough else 7, 6 if thorough else 3, rel,
+    rtx.pipeline_part(ctx, ["switchfail", "api", "drop2", "setfail", "incomplete", "switchfail", "api", "setfail", "incomplete"], 30 if thorough else 7, 6 if thorough else 3, rel,
                       "device switches with failing opens, streams switched off, shutdown: one close per open, no call and no write after close")
     loader_part(ctx)
 
